@@ -5,7 +5,7 @@ package metadata
 // Contracts for the deductive checks in /verif (comment-only; no code).
 // Property C11: metadata encoding is canonical, round-trips, and is safe.
 
-//@ nonnil graphSyncFilecoinV1Prototype
+//@ nonnil graphSyncFilecoinV1Prototype ErrTooLong
 
 // protoID is Protocol.ID() of an interface value: the Code field for *Unknown,
 // a constant of the dynamic type for every other transport.
@@ -126,7 +126,6 @@ package metadata
 //@ func (*Unknown).ReadFrom
 //@   property C11
 //@   requires u != nil && r != nil
-//@   assumes ErrTooLong != nil
 //@   at make#1: allocbound cap <= MaxMetadataSize + 20
 //@   at call ReadUvarint#1: after assume 0 <= cr.readCount && cr.readCount <= 10
 //@   at call ReadUvarint#2: after assume 0 <= cr.readCount && cr.readCount <= 20
